@@ -87,7 +87,7 @@ fn main() {
         std::process::exit(code);
     }
     let run = Run::new(&id, &tier);
-    match id.as_str() {
+    let outcome = std::panic::catch_unwind(std::panic::AssertUnwindSafe(|| match id.as_str() {
         "C01" => c01::run(c01::Mode::C01, &run),
         "C08" => c01::run(c01::Mode::C08, &run),
         "C07" => c07::run(c07::Mode::C07, &run),
@@ -110,6 +110,12 @@ fn main() {
             eprintln!("unknown property {id}");
             std::process::exit(2)
         }
+    }));
+    if outcome.is_err() {
+        // a panic outside the per-state guards is a failure of the machinery, never a verdict
+        let (loc, msg) = report::LAST_PANIC_ANY_THREAD.lock().map(|g| g.clone()).unwrap_or_default();
+        eprintln!("MACHINERY-ERROR [{id}]: uncaught panic at {loc}: {msg}");
+        std::process::exit(2);
     }
     std::process::exit(run.finish());
 }
